@@ -9,10 +9,10 @@
    definition and a proof below stops compiling.
 
    Trusted primitives (tools/src2v3_linear.py lists them): BufReader is transparent; io::copy over a Take is
-   Src3l.io_copy_take; ArchiveFileBlock::from is Blocks.parse_block; a writer of `export` accepts all it is
+   Src3l.io_copy_take; ArchiveFileBlock::from is the TRANSLATED gen/Src3b.v function (= Blocks.parse_block by SrcTie3Block.block_from_src); a writer of `export` accepts all it is
    handed (sinks = the log of (name, piece)). *)
 From MLA Require Import Limit.
-From MLA Require Import Base Stream Blocks Builders Writer Reader LinearProofs SrcTie3Reader.
+From MLA Require Import Base Stream Blocks Builders Writer Reader LinearProofs SrcTie3Reader SrcTie3Block.
 From MLA Require Import RoundTripBlocks RoundTripFooter RoundTripReader RoundTripWriter RoundTripRun
   RoundTripGlue RoundTrip LinearRoundTripDefs LinearRoundTripPure LinearRoundTrip.
 From MLAGen Require Src3d Src3l.
@@ -61,6 +61,7 @@ Section Tie.
   Lemma g_loop_keys fuel : forall e s ids, Src3l.ex_keys (fst (g_loop fuel e s ids)) = Src3l.ex_keys e.
   Proof.
     induction fuel as [|fuel IH]; intros e s ids; cbn [Src3l.linear_extract_loop]; [reflexivity|].
+    rewrite (block_from_src S FNMAX T_START T_CONTENT T_EOA T_EOF s).
     destruct (pb s) as [s1 [blk|er|c]]; [|reflexivity|reflexivity].
     destruct blk as [id name|id l|id h|]; [| | apply IH | reflexivity].
     - destruct (Src3l.hm_contains_key e name); apply IH.
@@ -85,6 +86,7 @@ Section Tie.
   Proof.
     induction fuel as [|fuel IH]; intros s export ids acc Hids; cbn [Src3l.linear_extract_loop Reader.lx_loop];
       [reflexivity|].
+    rewrite (block_from_src S FNMAX T_START T_CONTENT T_EOA T_EOF s).
     destruct (pb s) as [s1 [blk|er|c]]; [|reflexivity|reflexivity].
     destruct blk as [id name|id l|id h|].
     - rewrite hm_contains_key_src. destruct (name_in export name) eqn:En.
@@ -119,6 +121,19 @@ Section Tie.
     - apply lx_loop_sim. intros id n Hl; discriminate.
     - now rewrite g_loop_keys.
   Qed.
+
+  (* work package blockT: `g_linear` (gen/Src3l.v) calls the TRANSLATED `ArchiveFileBlock::from` of gen/Src3b.v;
+     the loop lemmas rewrite it to Blocks.parse_block with SrcTie3Block.block_from_src.  Witness: an error of
+     the translated `from` is the result of the translated loop *)
+  Lemma linear_extract_calls_translated_from fuel e s ids s1 er :
+    Src3b.ArchiveFileBlock_from S FNMAX T_START T_CONTENT T_EOA T_EOF 636 s = (s1, Err er) ->
+    g_loop (Datatypes.S fuel) e s ids = (e, Err er).
+  Proof. intros Hf. cbn [Src3l.linear_extract_loop]. rewrite Hf. reflexivity. Qed.
+  Corollary linear_extract_sim_full fuel (ar : Src3d.ArchiveReader S) (r : rstate S) export :
+    Src3d.ar_src S ar = r_src r ->
+    let g := g_linear fuel ar (Src3l.mkExport export []) in
+    res_of (Src3l.ex_log (fst g)) (snd g) = m_linear fuel r export /\ Src3l.ex_keys (fst g) = export.
+  Proof. exact (linear_extract_sim fuel ar r export). Qed.
 
   Corollary linear_extract_sim_rep fuel (r : rstate S) export :
     let g := g_linear fuel (rep_r S r) (Src3l.mkExport export []) in
